@@ -95,6 +95,7 @@ type argCase struct {
 }
 
 func argMapOf(f func() map[string]interface{}) (m map[string]interface{}, crash string) {
+	defer guard("ArgumentMap", "")()
 	defer func() {
 		if r := recover(); r != nil {
 			crash = fmt.Sprintf("panic: %v", r)
